@@ -195,6 +195,29 @@ def run(ctx):
         dist["dec_outcomes_" + prof] = outcomes
         for op, r in list(zip(dec_ops, impl))[n_rt:]:
             ctx.count(nontrivial_key=("dec", op) if strip(r).startswith("ok") or "err" in r else None)
+    # ---- phase 3: very large legitimate packets (implementation only: the unary-number model needs minutes for
+    # them): run lengths and literals beyond 2^19 / 2^20 bytes inside one packet - the round trip must still hold
+    big = []
+    ff, zz = [255] * 65535, [0] * 65535
+    big.append(([0, 0, 0, 0], [ff if i % 2 == 0 else zz for i in range(9)]))          # every delta is 0xFF..: one run of ~590k bytes
+    big.append(([1, 2, 3, 4], [ff if i % 2 == 0 else zz for i in range(10)]))
+    lit = [0x20] * 0x2020
+    big.append(([0, 0], [[(0x20 + (i % 7) + 1)] * 0x2020 for i in range(129)]))      # > 1 MiB of literal bytes (no 00 / ff)
+    big.append(([], [[rng.randrange(1, 255) for _ in range(65535)] for _ in range(17)]))
+    for ref, ins in big:
+        op = "enc %s %s" % (HEX(ref), " ".join(HEX(i) for i in ins))
+        for prof in profiles:
+            r = ctx.run_impl("codec", [op], prof)[0]
+            if not r.startswith("ok "):
+                ctx.hit("encode-panic", "compression::encode failed on a %d-input packet of %d-byte inputs (%s build): %s" % (len(ins), len(ins[0]), prof, r[:60]),
+                        {"level": "codec", "op": op, "profile": prof}); continue
+            r2 = ctx.run_impl("codec", ["dec %s %s" % (HEX(ref), strip(r)[3:])], prof)[0]
+            want = "ok " + ",".join(HEX(i) for i in ins)
+            if strip(r2) != want:
+                ctx.hit("roundtrip", "decode(encode(x)) != x for a packet of %d inputs of %d bytes (%s build): got %s" % (len(ins), len(ins[0]), prof, strip(r2)[:60]),
+                        {"level": "codec", "op": op, "profile": prof})
+            ctx.count(nontrivial_key=("big", len(ins), len(ins[0]), prof))
+    dist["big_roundtrips(impl only)"] = len(big) * len(profiles)
     ctx.cov["rule"] = ("encode cases: seeded structured generator (0x00/0xFF runs across varint boundaries 31/32/33, lengths 0..5000, "
                        "varying/empty inputs) + exhaustive {00,ff,01}^<=3 pairs; decode cases: every encoded payload (round trip), "
                        "corpus of F1 witnesses, seeded mutations of real payloads, structured token sequences whose claimed run lengths sit at the arithmetic and size limits (sums around 2^64 and MAX_DECODED_LEN), and ALL byte strings of length <= %d; "
@@ -212,9 +235,15 @@ def replay(ctx, path):
     for h in body.get("failing_inputs", []):
         rp = h["replay"]
         res = ctx.run_impl("codec", [rp["op"]], rp.get("profile", "debug"))
-        print("replay", rp["op"], "->", res)
+        print("replay", rp["op"][:120], "->", [r[:120] for r in res])
         if res and (res[0].startswith(("panic", "crash")) ):
             bad += 1
+        elif res and rp["op"].startswith("enc ") and strip(res[0]).startswith("ok "):
+            t = rp["op"].split()
+            r2 = ctx.run_impl("codec", ["dec %s %s" % (t[1], strip(res[0])[3:])], rp.get("profile", "debug"))
+            want = "ok " + (",".join(t[2:]) if len(t) > 2 else ".")
+            if not r2 or strip(r2[0]) != want:
+                print("  round trip fails: decode ->", (r2[0][:120] if r2 else None)); bad += 1
     if bad:
         print("VIOLATION property=C14 replay=%s" % path)
     return 1 if bad else 0
